@@ -36,6 +36,7 @@ ASSUMPTIONS = [
 ]
 SUBST = ("A", "B", "C", "D")
 EXP_LAWS = ("arrhenius", "eyring", "eyringhs")
+SCAN_MULTS = ([1, 1], [2, 1], [1, 2])      # must be the spec's ScanMults (checked against the case)
 ALT_SHARE = 6
 
 
@@ -262,6 +263,20 @@ def run_case(case):
                 oc = uc.unit_expr(nxt[0]["oc"]) if nxt else None      # None (empty expression) = keyword left out
                 ot = uc.unit_expr(nxt[0]["ot"]) if nxt else None
                 odesys, extra, obs = _eval_rates(rsys, reg, mode, conc, t1, params, oc, ot, subs, use_constants)
+                # a variation of the initial state: several vectors at once, every substance in its own unit
+                try:
+                    s0 = used[0]
+                    c0 = dict(conc)
+                    c0[s0] = [float(Fraction(*m)) * conc[s0] for m in SCAN_MULTS]
+                    xs, ys, ps = odesys.to_arrays(t1, c0, params)
+                    xs, ys, ps = odesys.pre_process(xs, ys, ps)
+                    import numpy as np
+                    fs = np.asarray(odesys.f_cb(np.atleast_1d(xs)[..., -1], ys, ps), dtype=float)
+                    names = list(odesys.names)
+                    obs["scan"] = [{"cin": {n: uc._tofloat(ys[i][k]) for k, n in enumerate(names)},
+                                    "f": {n: uc._tofloat(fs[i][k]) for k, n in enumerate(names)}} for i in range(len(SCAN_MULTS))]
+                except Exception as ex:  # noqa
+                    obs["scan"] = {"error": type(ex).__name__, "msg": str(ex)[:160]}
                 if mode == "inline" and env["tsrc"] != "ramp" and not use_constants:
                     # the same rates straight from the reaction system, fed with quantities
                     try:
@@ -382,6 +397,20 @@ def judge(case, i, a, obs, e, gv):
             tot, scale = _sum_terms(e["rates"][s], gv)
             if not uc.close_abs(obs["f"][s], tot / back, tol, scale / back):
                 return "rate", "get_odesys"
+        scan = obs.get("scan")
+        if scan is not None:
+            if isinstance(scan, dict):
+                return "unexpected-" + scan["error"], "get_odesys(scan)"
+            if [list(m) for m in e["scanmults"]] != [list(m) for m in SCAN_MULTS] or e["scansub"] != used[0] or len(scan) != len(e["scan"]):
+                return "scan-shape", "get_odesys(scan)"
+            for row, erow in zip(scan, e["scan"]):
+                for s in used:
+                    if not uc.close(row["cin"].get(s), uc.num(erow["cin"][s], gv), ctol):
+                        return "scan-to_arrays-concentration", "get_odesys(scan)"
+                for s in used:
+                    tot, scale = _sum_terms(erow["rates"][s], gv)
+                    if not uc.close_abs(row["f"].get(s), tot / back, tol, scale / back):
+                        return "scan-rate", "get_odesys(scan)"
         direct = obs.get("direct")
         if direct is not None:
             if "error" in direct:
@@ -428,6 +457,8 @@ def judge(case, i, a, obs, e, gv):
             return None
         if not obs["success"]:
             return None
+        if not all(uc.finite(v) for v in obs["yend_si"].values()):
+            return "integrated-value-not-finite", fn
         if obs["y_dim"] != {"length": -3, "mass": 0, "time": 0, "current": 0, "temperature": 0, "amount": 1}:
             return "output-dimension", fn
         if not uc.close(obs["x1_si"], uc.num(e["phys"]["t"], gv), ctol):
@@ -436,6 +467,8 @@ def judge(case, i, a, obs, e, gv):
     if op == "output":
         if not obs["success"]:
             return None  # integrator failure is not a unit question (counted by the caller)
+        if not all(uc.finite(v) for v in obs["yend_si"].values()):
+            return "integrated-value-not-finite", "odesys.integrate"
         if obs["x_dim"] != e["tunit"]["dim"] or obs["y_dim"] != e["cunit"]["dim"]:
             return "output-dimension", "odesys.integrate"
         if e["tmag"] and not uc.close(obs["x1"], uc.num(e["x1"], gv), ctol):
@@ -464,7 +497,10 @@ def replay_case(case):
     for i, a in enumerate(case["in"]["ops"]):
         if i >= len(obs):
             break
-        r = judge(case, i, a, obs[i], case["exp"]["obs"][i], gv)
+        try:
+            r = judge(case, i, a, obs[i], case["exp"]["obs"][i], gv)
+        except Exception as ex:  # noqa - an observation of an unforeseen shape/type is a disagreement, not a crash
+            r = ("unjudgeable-observation:" + type(ex).__name__, a["op"])
         if r is not None:
             bad = (i, a, r[0], r[1], obs[i])
             break
@@ -472,7 +508,8 @@ def replay_case(case):
     for a, o in zip(case["in"]["ops"], obs):
         if a["op"] == "output" and "yend_si" in o and o.get("success"):
             ends["main"] = o["yend_si"]
-        if a["op"] == "rates" and isinstance(o.get("alt"), dict) and "yend_si" in o["alt"]:
+        if a["op"] == "rates" and isinstance(o.get("alt"), dict) and "yend_si" in o["alt"] \
+                and all(uc.finite(v) for v in o["alt"]["yend_si"].values()):
             ends["alt"] = o["alt"]["yend_si"]
     calls = []
     prior = "fresh"
@@ -619,6 +656,13 @@ class Gen(object):
 
 
 def _run_trace(h):
+    try:
+        return _run_trace_inner(h)
+    except Exception as ex:  # noqa - never a crash: the trace ends in an error event that TLC rejects
+        return [{"ev": "error", "op": "harness", "exc": "Unencodable" + type(ex).__name__}, {"ev": "end"}], {"error": type(ex).__name__}
+
+
+def _run_trace_inner(h):
     from chempy import Reaction, ReactionSystem, Equilibrium
     if h["kind"] in ("rate_accept", "k_accept"):
         q = _q({"mag": h["kmag"], "ux": h["kux"]}, None)
